@@ -49,10 +49,13 @@ impl ClusterBidiStream for Duplex {
 struct Events {
     ready: Vec<String>,        // peer_addr labels of sessions reported ready
     disconnected: Vec<String>, // labels of sessions reported disconnected
+    opened: Vec<(String, bool)>, // (label, is_server) of every session reported opened
 }
 struct Sub(Arc<Mutex<Events>>);
 impl NodeEventSubscription for Sub {
-    fn node_session_opened(&self, _: NodeServerSessionInformation) {}
+    fn node_session_opened(&self, s: NodeServerSessionInformation) {
+        self.0.lock().unwrap().opened.push((s.peer_addr, s.is_server));
+    }
     fn node_session_disconnected(&self, s: NodeServerSessionInformation) {
         self.0.lock().unwrap().disconnected.push(s.peer_addr);
     }
@@ -562,6 +565,11 @@ struct TcpWorld {
     ev_a: Arc<Mutex<Events>>,
     ev_b: Arc<Mutex<Events>>,
     links: Vec<TcpLink>,
+    /// per link: did A dial it
+    dialled_by_a: Vec<bool>,
+    /// per node: connects to a dead port made / of which returned Err
+    refused: [usize; 2],
+    refused_errs: [usize; 2],
 }
 
 impl TcpWorld {
@@ -579,7 +587,7 @@ impl TcpWorld {
         a.cast(NodeServerMessage::SubscribeToEvents { id: "v".into(), subscription: Box::new(Sub(ev_a.clone())) }).ok()?;
         b.cast(NodeServerMessage::SubscribeToEvents { id: "v".into(), subscription: Box::new(Sub(ev_b.clone())) }).ok()?;
         schedule(&ctl, rng, 200, st).await;
-        Some(TcpWorld { ctl, a, b, ha, hb, port: [pa, pb], ev_a, ev_b, links: Vec::new() })
+        Some(TcpWorld { ctl, a, b, ha, hb, port: [pa, pb], ev_a, ev_b, links: Vec::new(), dialled_by_a: Vec::new(), refused: [0; 2], refused_errs: [0; 2] })
     }
 
     /// connection index `i` dialled by A (`a_dials`) or by B
@@ -588,6 +596,7 @@ impl TcpWorld {
         match tcp_link(&self.ctl, rng, st, &d, ap, budget, how).await {
             Some(l) => {
                 self.links.push(l);
+                self.dialled_by_a.push(a_dials);
                 true
             }
             None => false,
@@ -620,6 +629,37 @@ impl TcpWorld {
         let mut d: Vec<String> = ev.lock().unwrap().disconnected.iter().map(|s| self.label(side, s)).collect();
         d.sort();
         d
+    }
+
+    /// The `lsn` lines (Model/Listener.lean): what was done to node `side`'s listener / through its
+    /// `client_connect`, and the sessions it reported opened. `idx[j]` = index of link j.
+    fn lsn(&self, side: usize, idx: &[usize], log: &mut Log) {
+        let mut acc: Vec<usize> = Vec::new();
+        let mut dial: Vec<usize> = Vec::new();
+        for (j, by_a) in self.dialled_by_a.iter().enumerate() {
+            let i = idx.get(j).copied().unwrap_or(9990 + j);
+            if (*by_a && side == 0) || (!*by_a && side == 1) { dial.push(i) } else { acc.push(i) }
+        }
+        acc.sort_unstable();
+        dial.sort_unstable();
+        let ev = if side == 0 { &self.ev_a } else { &self.ev_b };
+        let mut srv: Vec<usize> = Vec::new();
+        let mut cli: Vec<usize> = Vec::new();
+        for (addr, is_server) in ev.lock().unwrap().opened.iter() {
+            let g = tcpq::link_of(addr);
+            let i = match self.links.iter().position(|l| Some(l.g) == g) {
+                Some(j) => idx.get(j).copied().unwrap_or(9990 + j),
+                None => 99900,
+            };
+            if *is_server { srv.push(i) } else { cli.push(i) }
+        }
+        srv.sort_unstable();
+        cli.sort_unstable();
+        let f = |v: &[usize]| if v.is_empty() { "-".to_string() } else { v.iter().map(|i| format!("c{i}")).collect::<Vec<_>>().join(",") };
+        log.rec(
+            format!("lsn {} acc={} dial={} refused={}", if side == 0 { "a" } else { "b" }, f(&acc), f(&dial), self.refused[side]),
+            format!("errs={} server={} client={}", self.refused_errs[side], f(&srv), f(&cli)),
+        );
     }
 
     async fn finish(self, rng: &mut Rng, st: &mut Stats) {
@@ -662,14 +702,16 @@ async fn tcp_case(log: &mut Log, st: &mut Stats, rng: &mut Rng, case_no: u64) {
         ractor::verif::uninstall();
         return;
     };
-    let mut refused_bad = false;
     if rng.chance(1, 3) {
-        let node = if rng.chance(1, 2) { w.a.clone() } else { w.b.clone() };
+        let side = rng.below(2) as usize;
+        let node = if side == 0 { w.a.clone() } else { w.b.clone() };
         let (err, made) = tcp_refused(&w.ctl, rng, st, &node).await;
         st.bump("tcp_refused_connects");
-        if !err || made != 0 {
-            refused_bad = true;
+        w.refused[side] += 1;
+        if err {
+            w.refused_errs[side] += 1;
         }
+        let _ = made; // a session made out of it shows in the `lsn` line (an opened session of no link)
     }
     let mut order: Vec<usize> = (0..k).collect();
     rng.shuffle(&mut order);
@@ -733,10 +775,6 @@ async fn tcp_case(log: &mut Log, st: &mut Stats, rng: &mut Rng, case_no: u64) {
     let mut rb: Vec<String> = raw_b.iter().filter(|l| sb.contains(l)).cloned().collect();
     ra.sort();
     rb.sort();
-    if refused_bad {
-        // a refused connect that reported success or left a session: shows as a phantom connection
-        sa.push("c9990".into());
-    }
     st.add("ready_events", (raw_a.len() + raw_b.len()) as u64);
     if dirs.iter().any(|d| *d) && dirs.iter().any(|d| !*d) {
         st.bump("e2e_both_directions");
@@ -747,6 +785,8 @@ async fn tcp_case(log: &mut Log, st: &mut Stats, rng: &mut Rng, case_no: u64) {
         format!("e2e {na}@{host} {nb}@{host} {k} {dirs_s}"),
         format!("{}|{}|{}|{}|{}|{}", fmt_l(&sa), fmt_l(&sb), fmt_l(&ra), fmt_l(&rb), fmt_l(&raw_a), fmt_l(&raw_b)),
     );
+    w.lsn(0, &idx, log);
+    w.lsn(1, &idx, log);
     w.finish(rng, st).await;
 }
 
